@@ -157,15 +157,17 @@ def run(prop, tier, seed, replay=None):
             if k.startswith("violations_"):
                 c[k] = c.get(k, 0) + v
     tv = None
-    if prop in ("C06", "C13"):
-        # trace part: value of the coordinate vs. exact cumulative sums, inside TLC
+    if prop in ("C06", "C13", "C09", "C10", "C11"):
+        # trace part: value of the coordinate vs. exact cumulative sums, inside TLC (C06, C13); which kinematic arguments of the
+        # call flow into v, the momenta, the jacobian and L^-1 u (C09, C10, C11: Sample!KinMasses / KinShiftsMin / Max)
         gpath, gruns, gst = p_flow.gen_graphs(tier, wd, seed)
         trace = os.path.join(wd, "trace.ndjson")
+        ng = (300 if tier == "quick" else 3000) if prop in ("C06", "C13") else (150 if tier == "quick" else 1500)
         fs = core.mt("record-flow", gpath, os.path.join(wd, "flow.json"), seed,
-                     {"trace": trace, "graphs": 300 if tier == "quick" else 3000, "runs": 4})
+                     {"trace": trace, "graphs": ng, "runs": 4})
         acc, rej, tstates, tgen = p_flow.validate(trace, wd)
         for x in rej:
-            p = p_flow.attribute(x["event"])
+            p = p_flow.attribute(x["event"], x.get("run"))
             violations.append({"property": p, "what": "recorded execution is not a behaviour of the Sample specification: first unmatched event %s"
                                % json.dumps(x["event"])[:300], "instance": {"run": x["run"]}, "detail": {"event": x["event"], "runner": "trace-sample"}})
         tv = {"module": "Trace_Sample", "events": fs["events"], "runs": fs["evaluations"], "accepted_runs": acc, "rejected_runs": len(rej), "tlc_states": tstates}
